@@ -213,7 +213,9 @@ protected:
 		}
 
 		using GetEvent = typename SelectGetEvent<Policies_, EventType_, HasFunctionGetEvent<Policies_, T &&, Args...>::value>::Type;
-		const auto e = GetEvent::getEvent(std::forward<T>(first), args...);
+		// Can't std::forward<T>(first) in GetEvent::getEvent: `first` is also passed to the callbacks below, and
+		// getEvent returning its rvalue parameter by value moves from it (implicit move, C++20 and clang).
+		const auto e = GetEvent::getEvent(first, args...);
 		const CallbackList_ * callableList = doFindCallableList(e);
 		if(callableList) {
 			(*callableList)(std::forward<T>(first), std::forward<Args>(args)...);
